@@ -225,38 +225,62 @@ def validate_histories(ctx, jobs, lin_module, cfg_consts, group=None, prop=None,
     rejected = []
     mp = os.path.join(SPEC, "lin", lin_module + ".tla")
     nm = name or (lin_module + ("_" + group if group else ""))
-    for c0 in range(0, len(hl), chunk):
-        part = hl[c0:c0 + chunk]
-        tf = os.path.join(ctx.dir, "hist_%s_%d.ndjson" % (nm, c0))
+    # JSON loading dominates TLC's run time, so the batch is sharded over parallel single-worker TLC processes
+    nsh = max(1, min(NCPU, len(hl) // 150))
+    shards = [hl[i::nsh] for i in range(nsh)]
+    t0 = time.time()
+
+    def one(args):
+        si, part = args
+        tf = os.path.join(ctx.dir, "hist_%s_%d.ndjson" % (nm, si))
         with open(tf, "w") as f:
             for (_, gid, body, _) in part:
                 f.write('{"e":"reset","n":%d,"id":%d}\n' % (len(body), gid))
                 f.write("\n".join(body) + "\n")
-        r = run_tlc(ctx, mp, cfg_text=cfg, env={"TRACE": tf}, name="lin_" + nm, timeout=1500)
+        return run_tlc(ctx, mp, cfg_text=cfg, env={"TRACE": tf}, name="lin_%s_%d" % (nm, si), timeout=1500, workers=2 if nsh > 4 else 4, heap="3g")
+
+    with concurrent.futures.ThreadPoolExecutor(max_workers=NCPU) as ex:
+        results = list(ex.map(one, list(enumerate(shards))))
+    rej = []
+    nstates = 0
+    for part, r in zip(shards, results):
         if r["error"] or r["violation"]:
             ctx.machinery_errors.append("history validation %s failed: %s" % (nm, r["error"] or r["violation"]))
             log(r["out"][-3000:])
             continue
         acc = set(int(x) for x in re.findall(r'<<"ACC", (\d+)>>', r["out"]))
         ctx.validated += len(part)
-        rej = [rec for rec in part if rec[1] not in acc]
-        log("  validated %d distinct histories against %s (%s): %d accepted, %d rejected; %d states, %.1fs" % (len(part), lin_module, group or "-", len(part) - len(rej), len(rej), r["distinct"], r["wall_s"]))
-        if len(ctx.samples) < 3 and part:
-            ctx.samples.append({"kind": "history accepted by " + lin_module, "variant": part[0][0].variant, "program": part[0][0].program, "events": [json.loads(x) for x in part[0][2][:40]]})
-        # confirm each rejection alone (rule out tooling noise) -- at most 5 per group are confirmed and reported
-        for rec in rej[:5]:
-            j, gid, body, sch = rec
-            tf1 = os.path.join(ctx.dir, "rej_%s_%d.ndjson" % (nm, gid))
-            with open(tf1, "w") as f:
-                f.write('{"e":"reset","n":%d,"id":%d}\n' % (len(body), gid))
-                f.write("\n".join(body) + "\n")
-            r1 = run_tlc(ctx, mp, cfg_text=cfg, env={"TRACE": tf1}, name="rej_" + nm, workers=1, timeout=600)
-            if re.search(r'<<"ACC", %d>>' % gid, r1["out"]):
-                ctx.machinery_errors.append("history %d rejected in batch but accepted alone" % gid)
-                continue
-            rejected.append(rec)
-        if len(rej) > 5:
-            ctx.notes.append("%d further rejected histories in %s not individually confirmed" % (len(rej) - 5, nm))
+        nstates += r["distinct"]
+        rej += [rec for rec in part if rec[1] not in acc]
+    log("  validated %d distinct histories against %s (%s): %d rejected; %d states, %d TLC shards, %.1fs" % (len(hl), lin_module, group or "-", len(rej), nstates, nsh, time.time() - t0))
+    if len(ctx.samples) < 3 and hl:
+        ctx.samples.append({"kind": "history accepted by " + lin_module, "variant": hl[0][0].variant, "program": hl[0][0].program, "events": [json.loads(x) for x in hl[0][2][:40]]})
+    # confirm each rejection alone (rule out tooling noise) -- at most 8 per group are confirmed and reported
+    rej.sort(key=lambda rec: (len(rec[2]), rec[1]))
+    seen_variants = set()
+    pick = []
+    for rec in rej:      # prefer one (shortest) rejected history per variant
+        if rec[0].variant not in seen_variants:
+            seen_variants.add(rec[0].variant)
+            pick.append(rec)
+    for rec in rej:
+        if len(pick) >= 8:
+            break
+        if rec not in pick:
+            pick.append(rec)
+    for rec in pick[:8]:
+        j, gid, body, sch = rec
+        tf1 = os.path.join(ctx.dir, "rej_%s_%d.ndjson" % (nm, gid))
+        with open(tf1, "w") as f:
+            f.write('{"e":"reset","n":%d,"id":%d}\n' % (len(body), gid))
+            f.write("\n".join(body) + "\n")
+        r1 = run_tlc(ctx, mp, cfg_text=cfg, env={"TRACE": tf1}, name="rej_" + nm, workers=1, timeout=600)
+        if re.search(r'<<"ACC", %d>>' % gid, r1["out"]):
+            ctx.machinery_errors.append("history %d rejected in batch but accepted alone" % gid)
+            continue
+        rejected.append(rec)
+    if len(rej) > len(pick[:8]):
+        ctx.notes.append("%d rejected histories in %s; %d individually confirmed and reported" % (len(rej), nm, len(pick[:8])))
     for rec in rejected:
         report_rejection(ctx, rec, lin_module, cfg_consts, prop or ctx.prop)
     return rejected
